@@ -59,6 +59,10 @@
    other ids are ordinary values that must come back unchanged: "a","b", and the markers' neighbours "pinf" "ninf" (+-inf),
    "nz" (-0.0), "fmax" (largest finite real), "z" (0), "m1" (-1; unsigned: all ones), "lo1" "lo3" (min+1, min+3), "hi1" "hi3"
    (max-1, max-3).  Only NaN is unset for reals; only the one marker value of the dtype is unset for integers.
+   "u" is a string (or dictionary key) with a non-ASCII character: datasets hold ASCII byte strings (astype("S")), so every
+   collection that would have to store it is refused at write time (plain:nonascii, dict:nonascii; with None / among ragged
+   entries strings are refused anyway).  Multi-dimensional ndarray entries carry a memory layout lay in C|F|T|S that no
+   operator reads (LayoutLaw): the adapter builds the same logical array in that layout.
 *)
 EXTENDS Integers, Sequences, FiniteSets, TLC, Json, SequencesExt, FiniteSetsExt
 
@@ -109,7 +113,10 @@ ElemDt(e)    == IF Len(Leaves(e)) = 0 THEN "f64" ELSE IF InnerNone(e) THEN "O" E
 
 NoneE            == [t |-> "none"]
 Sc(k, v)         == [t |-> "sc", k |-> k, v |-> v]
-Sq(c, k, sh, vs) == [t |-> "seq", c |-> c, k |-> k, sh |-> sh, vs |-> vs]
+Sq(c, k, sh, vs) == [t |-> "seq", c |-> c, k |-> k, sh |-> sh, vs |-> vs, lay |-> "C"]
+\* memory layout of a multi-dimensional ndarray entry: C (row major), F (Fortran ordered), T (transposed view), S (strided,
+\* non-contiguous slice).  A don't-care attribute: the abstract value (sh, vs in logical row-major order) is the same.
+SqL(k, sh, vs, lay) == [t |-> "seq", c |-> "nd", k |-> k, sh |-> sh, vs |-> vs, lay |-> lay]
 Rg(k, rows)      == [t |-> "rag", c |-> "list", k |-> k, rows |-> rows]
 Dc(k, m)         == [t |-> "dict", k |-> k, m |-> m]
 
@@ -163,13 +170,18 @@ PlanSeqs(x) ==
   ELSE LET D == {ElemDt(x[i]) : i \in Ix(x)}
            c == ArrCls(D)
        IN CASE c = "o" -> PlanObj2d(x)
-            [] c = "s" -> IF D = {"str"} THEN R("store", "plain:str", "plain") ELSE R("reject", "plain:mixstr", "none")
+            [] c = "s" -> IF D # {"str"} THEN R("reject", "plain:mixstr", "none")
+                          ELSE IF \E i \in Ix(x) : \E j \in Ix(x[i].vs) : x[i].vs[j] = "u"
+                               THEN R("reject", "plain:nonascii", "none")       \* astype("S"): UnicodeEncodeError
+                          ELSE R("store", "plain:str", "plain")
             [] OTHER   -> R("store", "plain:seq", "plain")
 
 PlanScalars(x) ==
   IF DcIdx(x) # {} THEN
        IF DcIdx(x) # Ix(x) THEN R("reject", "dict:mixed", "none")                       \* {k for d in data for k in d} / d.get
        ELSE IF \E i \in Ix(x) : x[i].k = "str" THEN R("reject", "dict:str", "none")      \* <U matrix
+       ELSE IF \E i \in Ix(x) : \E j \in Ix(x[i].m) : x[i].m[j][1] = "u"
+            THEN R("reject", "dict:nonascii", "none")                                    \* np.array(keys).astype("S")
        ELSE R("store", "dict", "dict")
   ELSE IF NoIdx(x) = Ix(x) THEN R("skip", "skip", "skip")
   ELSE IF NoIdx(x) # {} THEN
@@ -181,7 +193,9 @@ PlanScalars(x) ==
        ELSE IF \E k \in ScKinds(x) : Cls(k) = "f" THEN R("either", "nones:trunc", "nones")   \* astype(int) of reals: no check in the code
        ELSE R("store", IF rt \in UInt THEN "nones:uint" ELSE "nones:int", "nones")
   ELSE IF "str" \in ScKinds(x)
-       THEN (IF ScKinds(x) = {"str"} THEN R("store", "plain:str", "plain") ELSE R("reject", "plain:mixstr", "none"))
+       THEN (IF ScKinds(x) # {"str"} THEN R("reject", "plain:mixstr", "none")
+             ELSE IF \E i \in ScIdx(x) : x[i].v = "u" THEN R("reject", "plain:nonascii", "none")   \* astype("S"): UnicodeEncodeError
+             ELSE R("store", "plain:str", "plain"))
   ELSE R("store", "plain:num", "plain")
 
 Plan(x) == IF Jagged(x) THEN PlanJagged(x) ELSE IF SqIdx(x) # {} THEN PlanSeqs(x) ELSE PlanScalars(x)
@@ -236,7 +250,7 @@ EncNones(x) ==
   IN [st |-> "nones", k |-> dk, data |-> [i \in Ix(x) |-> IF x[i].t = "none" THEN Snt(dk) ELSE x[i].v],
       flags |-> {"specialFormatting", "nones"}, attrs |-> <<>>]
 
-DictKeyOrder == <<"p", "q", "r">>            \* sorted(...) over the key alphabet of the model
+DictKeyOrder == <<"p", "q", "r", "u">>       \* sorted(...) over the key alphabet of the model ("u" = a non-ASCII key, never stored)
 ValueAt(e, key) == IF \E j \in Ix(e.m) : e.m[j][1] = key THEN e.m[CHOOSE j \in Ix(e.m) : e.m[j][1] = key][2] ELSE "nan"
 EncDict(x) ==
   LET keys == SelectSeq(DictKeyOrder, LAMBDA key : \E i \in Ix(x) : \E j \in Ix(x[i].m) : x[i].m[j][1] = key)
@@ -344,6 +358,10 @@ SkipIsAllUnset == (phase \in {"stored", "read"} /\ store.st = "skip") => \A i \i
 \* attribute side channel: every attribute resolves to what was written
 AttrsResolve == phase \in {"stored", "read"} =>
                   \A j \in Ix(store.attrs) : store.attrs[j][2] = "@" => store.attrs[j][3] \in Ix(side)
+\* memory layout is a don't-care: outcome and normal form of a collection do not depend on it
+Canon(x) == [i \in Ix(x) |-> IF x[i].t = "seq" THEN [x[i] EXCEPT !.lay = "C"] ELSE x[i]]
+LayoutLaw == (phase = "build" /\ \E i \in Ix(vals) : vals[i].t = "seq" /\ vals[i].lay # "C") =>
+               (Plan(vals) = Plan(Canon(vals)) /\ NF(vals) = NF(Canon(vals)))
 \* the harness scales collections by tiling them (to push attributes over the real 64 KiB header limit); justified by:
 TilingLaw == (phase = "build" /\ vals # <<>> /\ Len(vals) <= 2) =>
                /\ Plan(vals \o vals).out = Plan(vals).out
